@@ -195,6 +195,7 @@ class TraceCheck:
         plan = P.generate(rng, cfg, w)
         late_modulus_tail(plan)
         boundary_region_tail(plan)
+        commuted_factors_tail(plan)
         return {"plan": plan, "faults": draw_faults(rng, self.fault_kinds, plan)}
 
     def execute(self, case):
